@@ -124,16 +124,20 @@ def _save_and_reraise(ctx):
                              (True, False)):
         for body in ('completed', 'Exception', 'BaseException',
                      'the original itself'):
-            for tb_attached in (True, False):
-                label = 'reraise=%s%s body=%s traceback %s' % (
+            for tb_attached, falsy in ((True, False), (False, False),
+                                       (True, True)):
+                label = 'reraise=%s%s body=%s traceback %s%s' % (
                     reraise, '' if initial == reraise else
                     ' (constructed with %s, switched in the body)' % initial,
                     body, 'already attached' if tb_attached
-                    else 'differs')
+                    else 'differs', ', exception object is falsy '
+                    '(its class defines __len__)' if falsy else '')
                 holder = {}
 
                 def thunk(interp):
                     orig = exc_obj('orig', 'ValueError')
+                    if falsy:
+                        orig.fields['__truth__'] = False
                     if not tb_attached:
                         orig.fields['__traceback__'] = T('sym', 'other_tb')
                     lg = logger_obj()
